@@ -256,7 +256,19 @@ class _LayoutCallee:
         # (ghost record: a sibling layout routine was handed a subtree - contracts may demand that this happens)
         if 'DESCENDED' in st.ghost:
             st.ghost['DESCENDED'] = SInt(z3.simplify(ex.z_int(st.ghost['DESCENDED']) + 1))
+        st.ghost['__handed__'] = st.ghost.get('__handed__', frozenset()) | {a.oid for a in args if isinstance(a, Rec)}
         return [(st, None)]
+
+
+def _handed_on(ex, self_val, args, kw, st):
+    """HANDED_ON(node): the node itself was passed to a sibling layout routine (the generic descent) on this path"""
+    x = args[0]
+    return [(st, isinstance(x, Rec) and x.oid in st.ghost.get('__handed__', frozenset()))]
+
+
+def _ghost_handed(ex, st):
+    from pyvc.symex import Func
+    st.ghost['HANDED_ON'] = Func('spec.HANDED_ON', model=_handed_on)
 
 
 for _q in ('sqlparse.filters.reindent.ReindentFilter._next_token',
@@ -535,7 +547,8 @@ for _c in ('shape: 2 items', 'shape: 3 items'):
     # C10 "every clause keyword starts its own line" also inside the items of a list: on every path the routine hands the
     # list on to the generic descent (which splits keywords and visits the nested groups)
     REG.cases[(_RF + '_process_identifierlist', _c)].ghost = {'DESCENDED': '0'}
-    REG.cases[(_RF + '_process_identifierlist', _c)].ensures = ['DESCENDED >= 1']
+    REG.cases[(_RF + '_process_identifierlist', _c)].ghost_init = staticmethod(_ghost_handed)
+    REG.cases[(_RF + '_process_identifierlist', _c)].ensures = ['DESCENDED >= 1', 'HANDED_ON(tlist)']
 MORE_LAYOUT_CASES.append((_RF + '_process_identifierlist', 'shape: 2 items'))
 MORE_LAYOUT_CASES.append((_RF + '_process_identifierlist', 'shape: 3 items'))
 
@@ -632,10 +645,69 @@ STRIPWS_SHAPE_CASES = [(_SW + '_stripws_identifierlist', 'shape: A ws ws , ws B 
                        (_SW + '_stripws_default', 'shape: ws A ws ws B ws')]
 
 
+def make_nested_ws_shape(ex, st):
+    """Statement  A ws Where[ WHERE ws COND ws ] B ws   - a nested group that ends in whitespace, and trailing whitespace"""
+    from contracts.sql import _mk_argument, _mk_leaf, _mk_node, _ws1
+    T, sql = ex.W.T, ex.W.sql
+    a, b, c = (_mk_argument(ex, st, n) for n in ('itemA', 'itemB', 'cond'))
+    for x in (a, b, c):
+        st.assume(z3.Not(st.objs[x.oid]['is_group'].z))
+    kw = _mk_leaf(ex, st, None, 'kw_where', (T.Keyword,), normalized='WHERE')
+    w = [_ws1(ex, st, 'ws%d' % i) for i in range(4)]
+    where = lambda g: _mk_node(ex, st, sql.Where, 'where', [kw, w[1], c, w[2]], g)    # noqa: E731
+    st.ghost.update({'A': a, 'B': b, 'COND': c, 'KW': kw, 'W0': w[0], 'W1': w[1], 'W2': w[2], 'W3': w[3]})
+    return _mk_node(ex, st, sql.Statement, 'stmt', [a, w[0], where, b, w[3]])
+
+
+_with_inline_on_shapes(_SW + 'process')
+_with_inline_on_shapes(_SW + '_stripws')
+_site_contract(_SW + 'process', {'self': make_filter('StripWhitespaceFilter'), 'stmt': make_nested_ws_shape,
+                                 'depth': lambda ex, st: 0},
+               case='shape: A ws Where[WHERE ws COND ws] B ws', raises=[], serves=('C06', 'C10'))
+_c = REG.cases[(_SW + 'process', 'shape: A ws Where[WHERE ws COND ws] B ws')]
+_c.shape_case = True
+_c.ensures = [
+    # C10: the statement loses its trailing whitespace; C06: a nested group that ends in whitespace keeps it (it is what
+    # separates its last token from the next token of the parent), every other token is the same object in place
+    'result is stmt', 'len(stmt.tokens) == 4', _same(0, 'A').replace('tlist', 'stmt'), _same(1, 'W0').replace('tlist', 'stmt'),
+    _same(3, 'B').replace('tlist', 'stmt'), 'isinstance(stmt.tokens[2], sql.Where)', 'len(stmt.tokens[2].tokens) == 4',
+    'stmt.tokens[2].tokens[0] is KW', 'stmt.tokens[2].tokens[1] is W1', 'stmt.tokens[2].tokens[2] is COND',
+    'stmt.tokens[2].tokens[3] is W2', "W0.value == ' '", "W1.value == ' '", "W2.value == ' '"]
+STRIPWS_SHAPE_CASES.append((_SW + 'process', 'shape: A ws Where[WHERE ws COND ws] B ws'))
+
+
+def make_operator_run(ex, st):
+    """a plain group   A op1 op2 B ws op3 C   (operators / comparison signs with arbitrary texts, two of them adjacent)"""
+    from contracts.sql import _mk_argument, _mk_leaf, _mk_node, _ws1
+    T = ex.W.T
+    a, b, c = (_mk_argument(ex, st, n) for n in ('itemA', 'itemB', 'itemC'))
+    o1, o2, o3 = (_mk_leaf(ex, st, None, n, (T.Operator, T.Comparison)) for n in ('op1', 'op2', 'op3'))
+    w = _ws1(ex, st, 'ws0')
+    st.ghost.update({'A': a, 'B': b, 'C': c, 'O1': o1, 'O2': o2, 'O3': o3, 'W': w})
+    return _mk_node(ex, st, ex.W.sql.Statement, 'tlist', [a, o1, o2, b, w, o3, c])
+
+
+_SO = 'sqlparse.filters.others.SpacesAroundOperatorsFilter.'
+_site_contract(_SO + '_process', {'tlist': make_operator_run}, case='shape: A op op B ws op C', raises=[], serves=('C10', 'C06'))
+REG.cases[(_SO + '_process', 'shape: A op op B ws op C')].ensures = [
+    # C10 "every operator is surrounded by whitespace": each of the three operators has a whitespace token on both sides
+    # (existing whitespace is kept, none is doubled); C06: the significant tokens are the same objects in order
+    'len(tlist.tokens) == 11', _same(0, 'A'), _same(2, 'O1'), _same(4, 'O2'), _same(6, 'B'), _same(7, 'W'), _same(8, 'O3'),
+    _same(10, 'C'), 'tlist.tokens[1].is_whitespace', 'tlist.tokens[3].is_whitespace', 'tlist.tokens[5].is_whitespace',
+    'tlist.tokens[9].is_whitespace', "tlist.tokens[1].value == ' '", "tlist.tokens[9].value == ' '",
+    'FRESH(tlist.tokens[1])', 'FRESH(tlist.tokens[3])', 'FRESH(tlist.tokens[5])', 'FRESH(tlist.tokens[9])']
+REG.cases[(_SO + '_process', 'shape: A op op B ws op C')].shape_case = True
+SPACING_SHAPE_CASES = [(_SO + '_process', 'shape: A op op B ws op C')]
+
+
 for _nw, _we in ((1, True),):
     _case = 'shape: %d WHEN%s' % (_nw, ' + ELSE' if _we else '')
     _site_contract(_RF + '_process_case', {'self': make_reindent, 'tlist': make_case_shape(_nw, _we)}, case=_case,
-                   serves=('C06', 'C07'))
+                   serves=('C06', 'C07', 'C10'))
+    # C10 "every clause keyword starts its own line" also inside a CASE expression, whatever the options (compact or not):
+    # the CASE group itself goes through the generic descent, which splits the keywords on its level
+    REG.cases[(_RF + '_process_case', _case)].ghost_init = staticmethod(_ghost_handed)
+    REG.cases[(_RF + '_process_case', _case)].ensures = ['HANDED_ON(tlist)']
     CASE_LAYOUT_CASES.append((_RF + '_process_case', _case))
 
 
